@@ -175,4 +175,159 @@ Section Trace.
     rewrite (run_app k2 (set_ka s 1) (set_ka s 1) _ (run_keepalives k2 _ Hd1 O2)). cbn [run]. rewrite T2.
     apply run_keepalives; [exact Hd | exact O3].
   Qed.
+
+  (* ---- C11 over whole runs: announcements are neither lost, duplicated nor reordered on a connection ---------- *)
+  Definition haves_sent (acts : list action) : list N :=
+    flat_map (fun x => match x with ASend (Wire.Have i) => [i] | _ => [] end) acts.
+  Definition AnnInv (s : hst) : Prop := h_choked s = false -> h_msg_buff s = [].
+
+  Lemma haves_app a b : haves_sent (a ++ b) = haves_sent a ++ haves_sent b.
+  Proof. unfold haves_sent. apply flat_map_app. Qed.
+  Lemma haves_flush l : haves_sent (map (fun i => ASend (Wire.Have i)) l) = l.
+  Proof.
+    induction l as [|x l IH]; [reflexivity|]. cbn [map].
+    change (haves_sent (ASend (Wire.Have x) :: map (fun i => ASend (Wire.Have i)) l)) with (x :: haves_sent (map (fun i => ASend (Wire.Have i)) l)).
+    rewrite IH. reflexivity.
+  Qed.
+  Lemma haves_cancels i (l : list (N * N)) : haves_sent (map (fun bl => ASend (Cancel i (fst bl) (snd bl))) l) = [].
+  Proof. induction l as [|x l IH]; [reflexivity|]. exact IH. Qed.
+  Lemma send_request_nohave r r2 a : send_request r = (r2, a) -> haves_sent a = [].
+  Proof. unfold send_request. destruct (rx_left r) as [|[b l] rest]; intros [= _ <-]; reflexivity. Qed.
+  Lemma npr_nohave b i l r a : new_piece_request cf b i l = (r, a) -> haves_sent a = [].
+  Proof.
+    unfold new_piece_request. destruct (send_request (new_rx cf i l)) as [r1 a1] eqn:E1.
+    destruct (send_request r1) as [r2 a2] eqn:E2. intros [= _ <-].
+    rewrite !haves_app, (send_request_nohave _ _ _ E1), (send_request_nohave _ _ _ E2). destruct b; reflexivity.
+  Qed.
+  Lemma apf_ann s0 pre r s' acts :
+    (after_piece_finish cf s0 pre r = HCont s' acts \/ after_piece_finish cf s0 pre r = HEnd s' acts true) ->
+    haves_sent acts = haves_sent pre /\ h_choked s' = h_choked s0 /\ h_msg_buff s' = h_msg_buff s0.
+  Proof.
+    unfold after_piece_finish. destruct r as [[| | | | | | | | | | | | | |i len| | |]|].
+    all: try (intros [H|H]; discriminate).
+    - destruct (new_piece_request cf false i len) as [r0 a0] eqn:E. intros [H|H]; [|discriminate]. injection H as <- <-.
+      rewrite haves_app, (npr_nohave _ _ _ _ _ E), app_nil_r. repeat split.
+    - intros [H|H]; [|discriminate]. injection H as <- <-. rewrite haves_app. cbn. rewrite app_nil_r. repeat split.
+    - intros [H|H]; [discriminate|]. injection H as <- <-. repeat split.
+    - intros [H|H]; [|discriminate]. injection H as <- <-. repeat split.
+  Qed.
+
+  Definition bhave_of (ev : event) : list N := match ev with EBroadHave i => [i] | _ => [] end.
+
+  Theorem announce_step s ev r s' acts : hs s ev r = HCont s' acts -> AnnInv s ->
+    haves_sent acts ++ h_msg_buff s' = h_msg_buff s ++ bhave_of ev /\ AnnInv s'.
+  Proof.
+    intros H HI.
+    assert (Keep : forall s1 a1, h_choked s1 = h_choked s -> h_msg_buff s1 = h_msg_buff s -> haves_sent a1 = [] ->
+              haves_sent a1 ++ h_msg_buff s1 = h_msg_buff s ++ [] /\ AnnInv s1).
+    { intros s1 a1 Ec Eb Ea. rewrite Ea, Eb, app_nil_r. split; [reflexivity|]. unfold AnnInv. rewrite Ec, Eb. exact HI. }
+    assert (Init : forall s0 id s1 a1, init_handshake cf s0 id r = HCont s1 a1 -> s1 = s0 /\ haves_sent a1 = []).
+    { intros s0 id s1 a1. unfold init_handshake. destruct r as [[]|]; try discriminate. intros [= <- <-]. split; reflexivity. }
+    destruct ev as [|m| | | |i|[[|]|]]; cbn [hstep bhave_of] in *.
+    - destruct (h_peer_id s); [destruct (Init _ _ _ _ H) as [-> Ea]; apply Keep; [reflexivity | reflexivity | exact Ea] | injection H as <- <-; apply Keep; reflexivity].
+    - unfold handle_frame in H.
+      destruct (Handler_gate_on_handshake && negb (h_hs_done s) && negb match m with Handshake _ _ => true | _ => false end); [discriminate|].
+      destruct m as [ih pid| | | | | |idx|bs|ri rb rl|pi pb blk|ci cb cl].
+      + destruct (negb (bytes_eqb ih (c_info_hash cf))); [discriminate|].
+        destruct (h_peer_id (set_ka s 0)).
+        * destruct (negb (bytes_eqb pid b)); [discriminate|]. injection H as <- <-. apply Keep; reflexivity.
+        * destruct (Init _ _ _ _ H) as [-> Ea]. apply Keep; [reflexivity | reflexivity | exact Ea].
+      + injection H as <- <-. apply Keep; reflexivity.
+      + (* Choke *) injection H as <- <-. cbn [haves_sent flat_map app set_hchoked set_ka h_msg_buff]. rewrite app_nil_r.
+        split; [reflexivity|]. unfold AnnInv. cbn. discriminate.
+      + (* Unchoke *)
+        destruct (Handler_ignore_repeated_unchoke && negb (h_choked (set_ka s 0))); [injection H as <- <-; apply Keep; reflexivity|].
+        assert (Fl : forall x s1, haves_sent x = [] -> h_choked s1 = false -> h_msg_buff s1 = [] ->
+                  haves_sent ((map (fun i => ASend (Wire.Have i)) (h_msg_buff (set_ka s 0)) ++ [ACmd KUnchoke]) ++ x) ++ h_msg_buff s1 = h_msg_buff s ++ [] /\ AnnInv s1).
+        { intros x s1 Ex Ec Eb. rewrite !haves_app, haves_flush, Ex, Eb. cbn [set_ka h_msg_buff haves_sent flat_map app]. rewrite !app_nil_r.
+          split; [reflexivity|]. intros _. exact Eb. }
+        destruct r as [[| |i len|i len| | | | | | | | | | | | | |]|]; try discriminate.
+        * destruct (new_piece_request cf true i len) as [r0 a0] eqn:E. injection H as <- <-. apply Fl; [exact (npr_nohave _ _ _ _ _ E) | reflexivity | reflexivity].
+        * destruct (new_piece_request cf false i len) as [r0 a0] eqn:E. injection H as <- <-. apply Fl; [exact (npr_nohave _ _ _ _ _ E) | reflexivity | reflexivity].
+        * injection H as <- <-. apply Fl; reflexivity.
+        * injection H as <- <-. rewrite <- (app_nil_r (_ ++ [ACmd KUnchoke])). apply Fl; reflexivity.
+      + injection H as <- <-. apply Keep; reflexivity.
+      + destruct r as [[]|]; try discriminate. injection H as <- <-. apply Keep; reflexivity.
+      + destruct (c_pieces_num cf <=? idx); [discriminate|].
+        destruct r as [[| | | | | | | |i len| | | | | | | | |]|]; try discriminate.
+        * destruct (new_piece_request cf true i len) as [r0 a0] eqn:E. injection H as <- <-.
+          apply Keep; [reflexivity | reflexivity | cbn [app]; change (haves_sent (ACmd (KHave idx) :: a0)) with (haves_sent a0); exact (npr_nohave _ _ _ _ _ E)].
+        * injection H as <- <-. apply Keep; reflexivity.
+        * injection H as <- <-. apply Keep; reflexivity.
+      + destruct (negb (bitfield_validate bs (c_pieces_num cf))); [discriminate|].
+        destruct r as [[]|]; try discriminate. injection H as <- <-.
+        apply Keep; [reflexivity | reflexivity | destruct with_unchoke, am_interested; reflexivity].
+      + unfold handle_request in H.
+        assert (P : haves_sent (if need_ask (set_ka s 0) ri then [ACmd (KRequest ri)] else []) = []) by (destruct (need_ask (set_ka s 0) ri); reflexivity).
+        destruct (load_tx cf disk (set_ka s 0) ri r) as [[t|]| | |]; try discriminate.
+        * destruct (request_validate cf ovf ri rb rl (tx_index t) (len (tx_buff t))); try discriminate.
+          destruct (len (tx_buff t) <? rb + rl); [discriminate|]. injection H as <- <-.
+          apply Keep; [reflexivity | reflexivity | rewrite haves_app, P; reflexivity].
+        * injection H as <- <-. apply Keep; [reflexivity | reflexivity | exact P].
+      + unfold handle_piece in H. cbn [h_rx set_ka] in H.
+        destruct (h_rx s) as [rx|]; [|injection H as <- <-; apply Keep; reflexivity].
+        destruct (negb (is_requested rx pi pb blk)); [injection H as <- <-; apply Keep; reflexivity|].
+        cbn [rx_left rx_hash] in H.
+        destruct (rx_left rx) as [|l0 lr].
+        * destruct (filter _ (rx_requested rx)) as [|q0 qr].
+          -- destruct (negb (bytes_eqb _ _)); [discriminate|].
+             destruct (apf_ann _ _ _ _ _ (or_introl H)) as (Ea & Ec & Eb). apply Keep; [exact Ec | exact Eb | rewrite Ea; reflexivity].
+          -- destruct (send_request _) as [r2 a] eqn:E. injection H as <- <-. apply Keep; [reflexivity | reflexivity | exact (send_request_nohave _ _ _ E)].
+        * destruct (send_request _) as [r2 a] eqn:E. injection H as <- <-. apply Keep; [reflexivity | reflexivity | exact (send_request_nohave _ _ _ E)].
+      + injection H as <- <-. apply Keep; reflexivity.
+    - discriminate.
+    - change Handler_recv_error_terminates with true in H. discriminate.
+    - destruct (h_keep_alive s =? peer_handler_KEEP_ALIVE_LIMIT); [discriminate|]. injection H as <- <-. apply Keep; reflexivity.
+    - (* a piece completed on another connection *)
+      assert (Ann : forall s0 pre s2 a2, h_choked s0 = h_choked s -> h_msg_buff s0 = h_msg_buff s -> haves_sent pre = [] ->
+                (if h_choked s0 then (set_buff s0 (h_msg_buff s0 ++ [i]), []) else (s0, [ASend (Wire.Have i)])) = (s2, a2) ->
+                haves_sent (pre ++ a2) ++ h_msg_buff s2 = h_msg_buff s ++ [i] /\ AnnInv s2).
+      { intros s0 pre s2 a2 Ec Eb Ep. rewrite haves_app, Ep. destruct (h_choked s0) eqn:E0; intros [= <- <-].
+        - cbn [haves_sent flat_map app set_buff h_msg_buff]. rewrite Eb. split; [reflexivity|]. unfold AnnInv. cbn. rewrite E0. discriminate.
+        - cbn [haves_sent flat_map app]. assert (B0 : h_msg_buff s = []) by (apply HI; congruence).
+          rewrite Eb, B0. split; [reflexivity|]. intros _. rewrite Eb. exact B0. }
+      destruct (h_rx s) as [rx|].
+      + destruct (rx_index rx =? i).
+        * destruct (after_piece_finish cf (set_rx s None) _ r) as [s1 a1|s1 a1 [|]|] eqn:E; try discriminate.
+          -- destruct (apf_ann _ _ _ _ _ (or_introl E)) as (Ea & Ec & Eb).
+             destruct (if h_choked s1 then _ else _) as [s2 a2] eqn:E2. injection H as <- <-.
+             apply (Ann s1 a1 s2 a2 Ec Eb); [|exact E2]. rewrite Ea, haves_app, haves_cancels. reflexivity.
+          -- destruct (apf_ann _ _ _ _ _ (or_intror E)) as (Ea & Ec & Eb).
+             destruct (if h_choked s1 then _ else _) as [s2 a2] eqn:E2. injection H as <- <-.
+             apply (Ann s1 a1 s2 a2 Ec Eb); [|exact E2]. rewrite Ea, haves_app, haves_cancels. reflexivity.
+        * destruct (if h_choked s then _ else _) as [s2 a2] eqn:E2. injection H as <- <-.
+          apply (Ann s [] s2 a2 eq_refl eq_refl eq_refl E2).
+      + destruct (if h_choked s then _ else _) as [s2 a2] eqn:E2. injection H as <- <-.
+        apply (Ann s [] s2 a2 eq_refl eq_refl eq_refl E2).
+    - injection H as <- <-. apply Keep; reflexivity.
+    - injection H as <- <-. apply Keep; reflexivity.
+    - injection H as <- <-. apply Keep; reflexivity.
+  Qed.
+
+  (* the same over a whole run, collecting what was sent and what was broadcast *)
+  Fixpoint run_acts (s : hst) (evs : list (event * option reply)) : option (hst * list action) :=
+    match evs with
+    | [] => Some (s, [])
+    | (ev, r) :: rest => match hs s ev r with
+                         | HCont s' a => match run_acts s' rest with Some (s2, a2) => Some (s2, a ++ a2) | None => None end
+                         | _ => None
+                         end
+    end.
+
+  Theorem announcements_in_order : forall evs s s' acts, run_acts s evs = Some (s', acts) -> AnnInv s ->
+    haves_sent acts ++ h_msg_buff s' = h_msg_buff s ++ flat_map (fun e => bhave_of (fst e)) evs /\ AnnInv s'.
+  Proof.
+    induction evs as [|[ev r] evs IH]; intros s s' acts H HI; cbn [run_acts] in H.
+    - injection H as <- <-. cbn. rewrite app_nil_r. split; [reflexivity | exact HI].
+    - destruct (hs s ev r) as [s1 a1| |] eqn:E; try discriminate.
+      destruct (run_acts s1 evs) as [[s2 a2]|] eqn:E2; [|discriminate]. injection H as <- <-.
+      destruct (announce_step s ev r s1 a1 E HI) as [A1 I1]. destruct (IH s1 s2 a2 E2 I1) as [A2 I2].
+      split; [|exact I2]. cbn [flat_map fst]. rewrite haves_app, <- app_assoc, A2, !app_assoc, A1. reflexivity.
+  Qed.
+
+  (* from a fresh connection: everything broadcast has been sent, in order, except what is still held back because the
+     peer chokes us -- and nothing is held back while it does not *)
+  Corollary announcements_complete evs pid s' acts : run_acts (h_init pid) evs = Some (s', acts) ->
+    haves_sent acts ++ h_msg_buff s' = flat_map (fun e => bhave_of (fst e)) evs /\ (h_choked s' = false -> h_msg_buff s' = []).
+  Proof. intros H. apply (announcements_in_order evs (h_init pid) s' acts H). intros Hc. discriminate. Qed.
 End Trace.
